@@ -366,7 +366,10 @@ func registerSDK(e *Engine) {
 		if !types.Identical(et, bl.Ty) {
 			panic(engErr("unmarshal type mismatch: stored %v, read as %v", bl.Ty, et))
 		}
-		ptr.store(bl.Val)
+		// gogoproto Unmarshal does not reset the target: it MERGES the decoded message into it
+		// (proto3 scalars equal to their zero value are not on the wire and leave the old field,
+		// repeated fields are appended). For a fresh zero target this is plain assignment.
+		ptr.store(mergeProto(ptr.load(), bl.Val))
 		return nilErr
 	}
 	in[BC+"MustUnmarshal"] = func(p *Path, a []Value) Value { unmarshal(p, a); return nil }
@@ -524,4 +527,90 @@ func (p *Path) prefixEndBytes(v Value) Value {
 		n--
 	}
 	return VSlice{Nil: true}
+}
+
+func isZeroVal(v Value) bool {
+	switch x := v.(type) {
+	case VInt:
+		c, ok := x.T.ConstInt()
+		return ok && c.Sign() == 0
+	case VBool:
+		b, ok := x.T.ConstBool()
+		return ok && !b
+	case VStr:
+		s, ok := x.T.ConstStr()
+		return ok && s == ""
+	case VBig:
+		return x.Nil
+	case VDec:
+		return x.Nil
+	case VTime:
+		c, ok := x.Sec.ConstInt()
+		n, ok2 := x.Nsec.ConstInt()
+		return ok && ok2 && c.Cmp(unixZeroTimeSec) == 0 && n.Sign() == 0
+	case VSlice:
+		return x.Nil || x.Len == 0
+	case VPtr:
+		return x.Nil
+	case VIface:
+		return x.Ty == nil
+	case *VStruct:
+		for _, f := range x.F {
+			if !isZeroVal(f) {
+				return false
+			}
+		}
+		return true
+	case *VArray:
+		for _, f := range x.E {
+			if !isZeroVal(f) {
+				return false
+			}
+		}
+		return true
+	}
+	return false
+}
+
+// mergeProto: result of unmarshalling a message with decoded value nv into a target holding old.
+func mergeProto(old, nv Value) Value {
+	if isZeroVal(old) {
+		return nv
+	}
+	switch n := nv.(type) {
+	case VInt:
+		if o, ok := old.(VInt); ok {
+			return VInt{Ite(Eq(n.T, IntC64(0)), o.T, n.T)}
+		}
+	case VBool:
+		if o, ok := old.(VBool); ok {
+			return VBool{Or(o.T, n.T)}
+		}
+	case VStr:
+		if o, ok := old.(VStr); ok {
+			return VStr{Ite(Eq(n.T, StrC("")), o.T, n.T)}
+		}
+	case *VStruct:
+		if o, ok := old.(*VStruct); ok && len(o.F) == len(n.F) {
+			fs := make([]Value, len(n.F))
+			for i := range fs {
+				fs[i] = mergeProto(o.F[i], n.F[i])
+			}
+			return &VStruct{F: fs}
+		}
+	case VSlice:
+		if o, ok := old.(VSlice); ok {
+			if n.Nil || n.Len == 0 {
+				return o
+			}
+			es := append(append([]Value{}, o.elems()...), n.elems()...)
+			return VSlice{Obj: &Obj{V: &VArray{E: es}, label: "merged-repeated"}, Len: len(es), Cap: len(es)}
+		}
+	case VPtr:
+		if n.Nil {
+			return old
+		}
+	}
+	// custom types (math.Int/Dec), times: always present on the wire -> replaced
+	return nv
 }
